@@ -16,7 +16,8 @@ macro "ax_side" : tactic =>
   `(tactic| first
     | omega
     | assumption
-    | exact cpsUp_contains_zero _
+    | exact hasTop_cpsUp _
+    | (simp only [List.reverse_cons, List.reverse_nil, List.nil_append, List.cons_append]; decide)
     | trivial
     | (simp only [List.headD_cons]; assumption)
     | (simp only [List.headD_cons, List.headD_nil]; decide)
@@ -28,7 +29,8 @@ macro "ax_side" : tactic =>
 macro "ax_eval" " [" ls:Lean.Parser.Tactic.simpLemma,* "]" : tactic =>
   `(tactic| simp (disch := ax_side) only
       [ax_nop, ax_seq, ax_startNode, ax_finishNode, ax_pushCp, ax_popCp, ax_startNodeAtCp, ax_retB, ax_skip,
-       ax_pushLocal, ax_popLocal, ax_setLocal, ax_ifLocal_true, ax_ifLocal_false,
+       ax_pushLocal, ax_popLocal, ax_setLocal, ax_ifLocal_true, ax_ifLocal_false, pushAll,
+       List.replicate_zero, List.replicate_succ,
        ax_ifFlag_true, ax_ifFlag_false, ax_ifAt_pos, ax_ifAt_neg, loopK_true, loopK_false,
        ax_eat, ax_eatIf_pos, ax_eatIf_neg, ax_expect, ax_assertTok, Option.bind_some,
        Grammar.defs, seqs, matchPeek, orError, whileNotAt, sepLoop, delimited, ifEatIf, leaf1,
@@ -68,10 +70,10 @@ theorem nvalFollowOk_iff {k : TokenKind} : nvalFollowOk k = true ↔ (nsvalFollo
 @[simp] theorem intKind_true : intKind true = .BinaryIntVal := rfl
 @[simp] theorem intKind_false : intKind false = .IntVal := rfl
 
-variable (rest : List TokenKind) (fl : Bool) (d : Nat) (loc : List Bool) (cps : List Nat)
+variable (rest : List TokenKind) (fl : Bool) (d : Nat) (loc : List Bool) (cps : CpStack) (cur : List SyntaxKind) (ps : List (SyntaxKind × List SyntaxKind))
 
 theorem c_identifier (n : Nat) (hn : 64 ≤ n) :
-    ax n (call .identifier) ⟨.Id :: rest, fl, d, loc, cps, true⟩ = some ⟨rest, true, d, loc, cps, true⟩ := by
+    ax n (call .identifier) ⟨.Id :: rest, fl, d, loc, cps, true, cur, ps⟩ = some ⟨rest, true, d, loc, cps, true, SyntaxKind.Identifier :: cur, ps⟩ := by
   obtain ⟨m, rfl⟩ : ∃ m, n = m + 10 := ⟨n - 10, by omega⟩
   ax_eval [ax_call]
 
@@ -101,6 +103,17 @@ theorem in_of_mem {k : TokenKind} {S T : List TokenKind} (h : S.contains k = tru
 
 /-! ### types -/
 
+/-- the node kind of a type -/
+def Frag.Ty.nk : Ty → SyntaxKind
+  | .bit => .BitType
+  | .int => .IntType
+  | .string => .StringType
+  | .dag => .DagType
+  | .code => .CodeType
+  | .bits _ => .BitsType
+  | .list _ => .ListType
+  | .cls => .ClassId
+
 /-- the flag after `type_` (only `identifier` / `integer` inside touch it) -/
 def tyFlag (fl : Bool) : Ty → Bool
   | .bits _ => true
@@ -110,23 +123,26 @@ def tyFlag (fl : Bool) : Ty → Bool
 
 /-- **`type_`** on a fragment type -/
 theorem c_type (t : Ty) (X : List TokenKind) :
-    ∀ (n : Nat) (fl : Bool) (d : Nat), 64 * t.render.length + 192 ≤ n →
-      ax n (call .type_) ⟨t.render ++ X, fl, d, loc, cps, true⟩ = some ⟨X, tyFlag fl t, d, loc, cps, true⟩ := by
+    ∀ (n : Nat) (fl : Bool) (d : Nat) (cur : List SyntaxKind) (ps : List (SyntaxKind × List SyntaxKind)),
+      64 * t.render.length + 192 ≤ n →
+      ax n (call .type_) ⟨t.render ++ X, fl, d, loc, cps, true, cur, ps⟩ = some ⟨X, tyFlag fl t, d, loc, cps, true, t.nk :: cur, ps⟩ := by
   induction t generalizing X cps with
   | list t ih =>
-    intro n fl d hn
+    intro n fl d cur ps hn
     simp only [Ty.render, List.length_cons, List.length_append] at hn
     obtain ⟨m, rfl⟩ : ∃ m, n = m + 40 := ⟨n - 40, by omega⟩
+    have hg : goodNode .ListType (List.reverse [t.nk]) = true := by cases t <;> rfl
     rw [ax_call]
     ax_eval [ax_call (f := .list_type), typeArms, Ty.render, tyFlag, ih]
+    rfl
   | bits b =>
-    intro n fl d hn
+    intro n fl d cur ps hn
     obtain ⟨m, rfl⟩ : ∃ m, n = m + 40 := ⟨n - 40, by omega⟩
-    cases b <;> ax_eval [ax_call, typeArms, Ty.render, tyFlag, intKind_true, intKind_false]
+    cases b <;> ax_eval [ax_call, typeArms, Ty.render, tyFlag, Ty.nk, intKind_true, intKind_false]
   | _ =>
-    intro n fl d hn
+    intro n fl d cur ps hn
     obtain ⟨m, rfl⟩ : ∃ m, n = m + 40 := ⟨n - 40, by omega⟩
-    ax_eval [ax_call, typeArms, Ty.render, tyFlag]
+    ax_eval [ax_call, typeArms, Ty.render, tyFlag, Ty.nk]
 
 /-- a type starts with a type keyword or an identifier -/
 theorem ty_head (t : Ty) (Y : List TokenKind) : Tables.typeFirst.contains ((t.render ++ Y).headD .Eof) = true := by
@@ -135,14 +151,14 @@ theorem ty_head (t : Ty) (Y : List TokenKind) : Tables.typeFirst.contains ((t.re
 /-! ### bit ranges -/
 
 theorem c_integer (b : Bool) (n : Nat) (hn : 64 ≤ n) :
-    ax n (call .integer) ⟨intKind b :: rest, fl, d, loc, cps, true⟩ = some ⟨rest, true, d, loc, cps, true⟩ := by
+    ax n (call .integer) ⟨intKind b :: rest, fl, d, loc, cps, true, cur, ps⟩ = some ⟨rest, true, d, loc, cps, true, SyntaxKind.Integer :: cur, ps⟩ := by
   obtain ⟨m, rfl⟩ : ∃ m, n = m + 20 := ⟨n - 20, by omega⟩
   cases b <;> ax_eval [ax_call, intKind_true, intKind_false]
 
 theorem c_range_piece (p : RangePiece) (X : List TokenKind)
     (h1 : (X.headD .Eof == .DotDotDot) = false) (h2 : (X.headD .Eof == .Minus) = false)
     (h3 : (X.headD .Eof == .IntVal) = false) (n : Nat) (hn : 64 * p.render.length + 192 ≤ n) :
-    ax n (call .range_piece) ⟨p.render ++ X, fl, d, loc, cps, true⟩ = some ⟨X, true, d, loc, cps, true⟩ := by
+    ax n (call .range_piece) ⟨p.render ++ X, fl, d, loc, cps, true, cur, ps⟩ = some ⟨X, true, d, loc, cps, true, SyntaxKind.RangePiece :: cur, ps⟩ := by
   obtain ⟨m, rfl⟩ : ∃ m, n = m + 40 := ⟨n - 40, by omega⟩
   cases p with
   | single b =>
@@ -152,7 +168,7 @@ theorem c_range_piece (p : RangePiece) (X : List TokenKind)
   | minus b1 b2 =>
     ax_eval [ax_call (f := .range_piece), RangePiece.render, c_integer]
   | juxt b1 =>
-    have h' := c_integer X true (d + 1) loc (cpsUp cps) false
+    have h' := c_integer X true (d + 1) loc (cpsUp cps) [SyntaxKind.Integer] ((SyntaxKind.RangePiece, cur) :: ps) false
     simp only [intKind_false] at h'
     ax_eval [ax_call (f := .range_piece), RangePiece.render, c_integer, h']
 
@@ -168,39 +184,45 @@ theorem piece_length_pos (p : RangePiece) : 0 < p.render.length := by
 /-- the loop of `range_list` -/
 theorem c_range_loop (tl : List RangePiece) (X : List TokenKind)
     (hX : [TokenKind.RBrace, .Greater].contains (X.headD .Eof) = true) :
-    ∀ (p : RangePiece) (n : Nat) (fl : Bool), 64 * (p.render.length + (rangeTail tl).length) + 256 ≤ n →
+    ∀ (p : RangePiece) (n : Nat) (fl : Bool) (cur : List SyntaxKind),
+      64 * (p.render.length + (rangeTail tl).length) + 256 ≤ n →
       ax n (loop (ifAt [.Eof] (retB false) (seq (call .range_piece) (eatIf .Comma))) nop)
-        ⟨p.render ++ (rangeTail tl ++ X), fl, d, loc, cps, true⟩ = some ⟨X, false, d, loc, cps, true⟩ := by
+        ⟨p.render ++ (rangeTail tl ++ X), fl, d, loc, cps, true, cur, ps⟩ = some ⟨X, false, d, loc, cps, true, pushAll (List.replicate (tl.length + 1) SyntaxKind.RangePiece) cur, ps⟩ := by
   have h1 : (X.headD .Eof == .DotDotDot) = false := ne_of_mem hX (by decide)
   have h2 : (X.headD .Eof == .Minus) = false := ne_of_mem hX (by decide)
   have h3 : (X.headD .Eof == .IntVal) = false := ne_of_mem hX (by decide)
   have h4 : (X.headD .Eof == .Comma) = false := ne_of_mem hX (by decide)
   induction tl with
   | nil =>
-    intro p n fl hn
+    intro p n fl cur hn
     simp only [rangeTail, List.length_nil] at hn
     obtain ⟨m, rfl⟩ : ∃ m, n = m + 20 := ⟨n - 20, by omega⟩
     have hh : ∀ Z, [TokenKind.Eof].contains ((p.render ++ Z).headD .Eof) = false :=
       fun Z => notin_of_mem (piece_head p Z) (by decide)
     rw [ax_loop]
     ax_eval [rangeTail, c_range_piece]
+    rfl
   | cons q qs ih =>
-    intro p n fl hn
+    intro p n fl cur hn
     simp only [rangeTail, List.length_cons, List.length_append] at hn
     obtain ⟨m, rfl⟩ : ∃ m, n = m + 20 := ⟨n - 20, by omega⟩
     have hh : ∀ Z, [TokenKind.Eof].contains ((p.render ++ Z).headD .Eof) = false :=
       fun Z => notin_of_mem (piece_head p Z) (by decide)
     rw [ax_loop]
     ax_eval [rangeTail, c_range_piece, ih]
+    rfl
 
 theorem c_range_list (r : RangeList) (X : List TokenKind)
     (hX : [TokenKind.RBrace, .Greater].contains (X.headD .Eof) = true)
     (n : Nat) (hn : 64 * r.render.length + 320 ≤ n) :
-    ax n (call .range_list) ⟨r.render ++ X, fl, d, loc, cps, true⟩ = some ⟨X, true, d, loc, cps, true⟩ := by
+    ax n (call .range_list) ⟨r.render ++ X, fl, d, loc, cps, true, cur, ps⟩ = some ⟨X, true, d, loc, cps, true, SyntaxKind.RangeList :: cur, ps⟩ := by
   obtain ⟨p, tl⟩ := r
   simp only [RangeList.render, List.length_append] at hn ⊢
   obtain ⟨m, rfl⟩ : ∃ m, n = m + 20 := ⟨n - 20, by omega⟩
-  ax_eval [ax_call (f := .range_list), c_range_loop _ _ _ tl X hX]
+  have hg : goodNode .RangeList (pushAll (List.replicate tl.length .RangePiece) [.RangePiece]).reverse = true :=
+    good_all_push .RangeList ⟨"pieces", .all, [.RangePiece]⟩ rfl rfl
+      (List.replicate (tl.length + 1) .RangePiece) (by intro x hx; rw [List.eq_of_mem_replicate hx]; rfl)
+  ax_eval [ax_call (f := .range_list), c_range_loop _ _ _ _ tl X hX]
 
 end C04L
 end Tg
